@@ -458,3 +458,69 @@ Example C08_judge_sound_nonvacuous_row_and_booking :
   C08Judge.agrees (CaseBookList req store listed) = true /\ book_guard (CaseBookList req store listed) = true /\
   (listed <> [] /\ List.length listed < List.length store)%nat.
 Proof. vm_compute. repeat split; try discriminate; lia. Qed.
+
+(* ====================================================================================== *)
+(* "behaves as if the collection contained only the items satisfying it": nothing the       *)
+(* filtered subscriber receives mentions a version the predicate rejects.  Both delivery    *)
+(* modes, every history / schedule, every kind, every predicate (the oracle clause          *)
+(* mentions_only_matching of C08x_ok, as a theorem of the model).                           *)
+(* ====================================================================================== *)
+From SC Require Import Resource.IncludeMatchProofs.
+
+Theorem C08_delivered_versions_all_match : forall (f : ipred),
+  (forall sent, Forall (matching f) (bp_stream (Some f) sent)) /\
+  (forall l, Forall (matching f) (lossy_stream (Some f) l)).
+Proof. intros f. split; [apply bp_all_matching|apply lossy_all_matching]. Qed.
+Print Assumptions C08_delivered_versions_all_match.
+
+(* one change: what include returns keeps the id and the time, carries at least one version, and
+   only versions the predicate accepts *)
+Theorem C08_include_returns_matching : forall (f : ipred) c o,
+  x_include (Some f) c = Some o -> matching f o /\ cid o = cid c /\ ctime o = ctime c.
+Proof. exact include_delivers_matching. Qed.
+Print Assumptions C08_include_returns_matching.
+
+(* a change between two versions the predicate rejects (or absent ones) is never delivered *)
+Theorem C08_stays_out_never_delivered : forall (f : ipred) c,
+  (forall t, cold c = Some t -> f (cid c) (Some t) = false) ->
+  (forall t, cnew c = Some t -> f (cid c) (Some t) = false) ->
+  x_include (Some f) c = None.
+Proof. exact stays_out_never_delivered. Qed.
+Print Assumptions C08_stays_out_never_delivered.
+
+(* non-vacuity: a predicate TRUE on absent values; the update 1 -> 2 of a rejected item is dropped,
+   the REPLACE 5 -> 1 arrives as a REMOVE carrying only the accepted version 5 *)
+Example C08_nonvacuous_delivered_match :
+  let p : ipred := fun _ v => match v with Some t => 3 <=? t | None => true end in
+  bp_stream (Some p) [mkChange 7 K_UPDATE (Some 1) (Some 2) 9 false false;
+                      mkChange 0 K_REPLACE (Some 5) (Some 1) 12 false false] =
+    [mkChange 0 K_REMOVE (Some 5) None 12 false false].
+Proof. vm_compute. reflexivity. Qed.
+
+(* generator C08x, lossy public-API scenario: of the four clauses of C08x_ok, "nothing delivered
+   mentions a version the predicate rejects" follows from agreement with seeds ++ include(m_run).
+   _partial: fold = List, seeds first and the old-value chain stay oracle clauses (they need the
+   token reading of the run_c history, see notes) *)
+Theorem C08_judge_sound_lossy_matching_partial : forall what before ro phases stream final,
+  C08Judge.agrees (CaseLossy what before ro phases stream final) = true ->
+  le_guard (lossy_model before ro phases) = true ->
+  mentions_only_matching ro stream = true.
+Proof. exact judge08x_sound_lossy_matching_partial. Qed.
+Print Assumptions C08_judge_sound_lossy_matching_partial.
+
+(* non-vacuity: a guarded lossy case that agrees: seed b, plug on p, then a leaves the filter and
+   b is deleted and re-added below the threshold while the reader is stalled *)
+Example C08_judge_sound_nonvacuous_lossy :
+  let o := mkFWO None None None None false None false None false None None true false false false in
+  let ro := mkFRO None false (Some (PFieldGe Fa 2)) in
+  let before := [FUpdate "a" (mkF 1 0 0) o []; FUpdate "b" (mkF 3 0 0) o []] in
+  let phases := [[FUpdate "p" (mkF 9 0 0) o []; FUpdate "a" (mkF 4 0 0) o []; FDelete "b" o;
+                  FUpdate "b" (mkF 1 0 0) o []; FUpdate "z" (mkF 9 0 0) o []]] in
+  let e := lossy_model before ro phases in
+  let stream := map oc_of (le_seeds e) ++
+                map (fun c => mkOC (dec_id (le_tbl e) (cid c)) (ctime c) (ckind c) (option_map dec_msg (cold c))
+                                   (option_map dec_msg (cnew c)) (cseed c) (clast c)) (le_got e) in
+  let fin := c_list fr_filter (le_final e) None (Some (interp_pred (PFieldGe Fa 2))) in
+  le_guard e = true /\ C08Judge.agrees (CaseLossy "x" before ro phases stream fin) = true /\
+  map oc_kind stream = [1; 1; 1; 3; 1] /\ C08x_ok (CaseLossy "x" before ro phases stream fin) = true.
+Proof. vm_compute. auto. Qed.
